@@ -239,3 +239,439 @@ Proof.
       rewrite forallb_forall in N1. specialize (N1 l Hin0). rewrite G0 in N1. rewrite ?P in N1. rewrite get_path_loc, P0 in N1. discriminate.
     + rewrite Hnull in GF. inversion GF; subst vF. simpl in PF. discriminate.
 Qed.
+
+Lemma combine_in_map : forall {A B C} (g : A -> C) (bs : list (A * B)) b locs,
+  In (b, locs) bs -> In (locs, g b) (combine (map snd bs) (map g (map fst bs))).
+Proof.
+  induction bs as [|[b' l'] r IH]; intros b locs H; simpl in *; [contradiction|].
+  destruct H as [E|H]; [inversion E; subst; left; reflexivity|right; apply IH; exact H].
+Qed.
+
+Lemma sub_obj_root : forall m d', sub_b (JObj m) d' = true -> exists m', d' = JObj m'.
+Proof. intros m d' H. destruct (sub_obj_inv _ _ H) as (m' & -> & _). eexists. reflexivity. Qed.
+
+Lemma step_noarr : forall answer root_answer kind_of f s0, step_ok_b answer root_answer kind_of f s0 = true ->
+  f_kind f = FEntity -> noarr_path (ls_data s0) (f_path f) [[]] = true.
+Proof.
+  intros answer root_answer kind_of f s0 H K. unfold step_ok_b in H.
+  apply andb_prop in H as [H _]. apply andb_prop in H as [_ He]. rewrite K in He. apply andb_prop in He as [_ He]. exact He.
+Qed.
+
+Section Unaff.
+  Variable answer : N -> bytes -> json * list json.
+  Variable root_answer : N -> json * list json.
+  Variable kind_of : N -> fkind.
+  Variable F : N -> option fault.
+  Hypothesis Hloud : forall id k, F id = Some k -> loud (kind_of id) k = true.
+  Hypothesis Hans : forall id rep, json_wf (fst (answer id rep)) = true.
+  Hypothesis Hroot : forall id, json_wf (fst (root_answer id)) = true.
+
+  Let e0 := clean_exchange answer root_answer kind_of.
+  Let eF := faulty_exchange answer root_answer kind_of F.
+
+  Lemma entity_one_item : forall f s0 dF, sub_b dF (ls_data s0) = true -> fetch_ok kind_of f = true ->
+    step_ok_b answer root_answer kind_of f s0 = true -> f_kind f = FEntity ->
+    (length (select_items dF (f_path f)) <= 1)%nat.
+  Proof.
+    intros f s0 dF Hs Hok Hstep K. destruct (fetch_ok_inv kind_of f Hok) as (_ & _ & Hnt & _ & _).
+    unfold select_items. eapply select_len_noarr; [exact Hs|exact Hnt| |simpl; lia|eapply step_noarr; eassumption].
+    intros l H. left. exact H.
+  Qed.
+
+  Lemma targets_pskip : forall f d d', fetch_ok kind_of f = true ->
+    prepare f d (select_items d (f_path f)) = PSkip d' -> targets answer root_answer f d = [].
+  Proof.
+    intros f d d' Hok HP. unfold targets. destruct (f_kind f) eqn:K; try (rewrite HP; reflexivity).
+    unfold prepare in HP. rewrite K in HP.
+    destruct (batch_prepare (f_rep f) (select_items d (f_path f)) d []) as [d2 bs]. cbn [snd].
+    destruct bs; [reflexivity|discriminate].
+  Qed.
+
+  (* everything the faulty run's own step does, for the role of the bigger side *)
+  Lemma F_step_facts : forall f s0 sF, Rst s0 sF -> fetch_ok kind_of f = true ->
+    step_ok_b answer root_answer kind_of f s0 = true ->
+    json_wf (ls_data sF) = true -> (exists m, ls_data sF = JObj m) ->
+    let sF' := fst (run_fetch unit eF f (sF, tt)) in
+    sub_b (ls_data sF) (ls_data sF') = true /\ json_wf (ls_data sF') = true /\
+    (F (f_id f) = None -> should_skip f sF = false -> ls_hard sF' = false ->
+     big_facts answer root_answer f (ls_data sF) (ls_data sF')).
+  Proof.
+    intros f s0 sF HR Hok Hstep Wd (m0 & Hm0). cbv zeta.
+    destruct (fetch_ok_inv kind_of f Hok) as (Hk & Hd & Hnt & Hmp & Hkind).
+    assert (Hone : f_kind f = FEntity -> (length (select_items (ls_data sF) (f_path f)) <= 1)%nat).
+    { intros K. eapply entity_one_item; try eassumption. exact (R_sub _ _ HR). }
+    assert (Hsame : forall s', ls_data s' = ls_data sF ->
+              sub_b (ls_data sF) (ls_data s') = true /\ json_wf (ls_data s') = true).
+    { intros s' E. rewrite E. split; [apply sub_refl; exact Wd|exact Wd]. }
+    unfold run_fetch.
+    destruct (should_skip f sF) eqn:SK.
+    { cbn [fst]. destruct (Hsame (add_errored sF (f_id f)) eq_refl) as [A B]. split; [exact A|]. split; [exact B|]. intros _ E. discriminate. }
+    pose proof (prepare_data kind_of f (ls_data sF) (select_items (ls_data sF) (f_path f)) Hok) as Hpd.
+    destruct (prepare f (ls_data sF) (select_items (ls_data sF) (f_path f))) as [d|dF rqF batchF] eqn:HP.
+    { cbn [fst]. subst d. destruct (Hsame (set_data sF (ls_data sF)) eq_refl) as [A B]. split; [exact A|]. split; [exact B|].
+      intros _ _ _. split; [exact Hone|]. rewrite (targets_pskip f _ _ Hok HP). intros l src []. }
+    subst dF.
+    (* the fault-free side, for the bounds *)
+    destruct (targets_contained answer root_answer kind_of f s0 Hstep) as (Hinfl0 & Hone0 & Hcont0).
+    assert (Hbig0 : big_facts answer root_answer f (ls_data s0) (ls_data (fst (run_fetch unit (clean_exchange answer root_answer kind_of) f (s0, tt))))) by (split; assumption).
+    assert (Hload : load_ok answer root_answer f (ls_data s0) (ls_data (fst (run_fetch unit (clean_exchange answer root_answer kind_of) f (s0, tt))))
+                            (select_items (ls_data sF) (f_path f)) rqF batchF).
+    { destruct (f_kind f) eqn:K; [eapply load_sim_single|eapply load_sim_entity|eapply load_sim_batch]; try eassumption; exact (R_sub _ _ HR). }
+    destruct Hload as (_ & HneF & Hone1 & Hcont).
+    pose proof (shape_of_load kind_of f _ _ _ _ Hok HP) as Hshape.
+    destruct (prepare_request _ _ _ _ _ _ HP) as [Hrq Hbatch].
+    destruct (fetch_sim answer root_answer kind_of F Hloud f s0 sF HR Hok Hstep) as [HsubD _ _ _].
+    unfold run_fetch in HsubD. rewrite SK, HP in HsubD.
+    unfold eF, faulty_exchange in *. rewrite Hrq, Hk in *.
+    set (cl := clean_response answer root_answer rqF match f_kind f with FSingle => true | _ => false end) in *.
+    set (D := ls_data (fst (run_fetch unit (clean_exchange answer root_answer kind_of) f (s0, tt)))) in *.
+    cbn [fst] in *.
+    set (sF1 := add_request (set_data sF (ls_data sF)) rqF) in *.
+    destruct (F (f_id f)) as [k|] eqn:EF.
+    { (* faulted: nothing merged *)
+      set (res := apply_fault k cl) in *. set (sF2 := if rs_err res then add_errored sF1 (f_id f) else sF1) in *.
+      assert (HdF2 : ls_data sF2 = ls_data sF) by (subst sF2; destruct (rs_err res); reflexivity).
+      assert (Hsm : ls_data (merge_result f res (select_items (ls_data sF) (f_path f)) batchF sF2) = ls_data sF).
+      { rewrite <- HdF2. subst res. specialize (Hloud _ _ EF). rewrite Hk in Hloud.
+        destruct (loud_body k) eqn:LB; [apply loud_body_data; assumption|].
+        assert (Hc : (k = FtCountLess \/ k = FtCountMore) /\ f_kind f = FBatch).
+        { destruct k; try discriminate; simpl in Hloud; destruct (f_kind f); try discriminate; auto. }
+        destruct Hc as [Hc Hfk]. destruct (Hbatch Hfk) as (bs & Hne & Hreps & Hb). subst batchF.
+        subst cl. rewrite Hfk. apply count_data; try assumption. rewrite Hd, Hfk. reflexivity. }
+      destruct (Hsame _ Hsm) as [A B]. split; [exact A|]. split; [exact B|]. intros E. discriminate. }
+    (* unfaulted: the clean response *)
+    assert (HsD : sub_b (ls_data sF) D = true) by (eapply sub_trans; [exact (R_sub _ _ HR)|exact Hinfl0]).
+    change (if rs_err cl then add_errored sF1 (f_id f) else sF1) with sF1 in *.
+    assert (Hd1 : ls_data sF1 = ls_data sF) by reflexivity.
+    unfold load_shape in Hshape. unfold clean_of in Hcont. fold cl in Hcont.
+    destruct (f_kind f) eqn:K.
+    - (* single *)
+      destruct Hshape as (Hit & Hb & Hq). rewrite Hb in Hcont |- *. rewrite Hit in Hcont |- *. subst rqF.
+      destruct (clean_single_rdata answer root_answer (mk_request f [])) as (resp & Hbody & Herr & Hrd). fold cl in Hbody, Herr.
+      cbn [rq_fetch mk_request] in Hrd. rewrite <- Hd in Hrd.
+      set (rd := fst (root_answer (f_id f))) in *.
+      destruct (is_nullish (Some rd)) eqn:Nl.
+      + destruct (merge_result_nullish f cl [[]] None sF1 resp Herr Hbody) as [E1 E2]; [rewrite Hrd; exact Nl|].
+        rewrite E1. destruct (Hsame sF1 Hd1) as [A B]. rewrite Hd1. split; [exact A|]. split; [exact B|].
+        intros _ _ _. split; [intros E; congruence|].
+        intros l src Hin. unfold targets in Hin. rewrite K, HP, Hit in Hin. destruct Hin as [E|[]]. inversion E; subst l src. exists (ls_data sF). split; [reflexivity|].
+        fold rd. destruct rd; try discriminate. reflexivity.
+      + destruct (merge_result_one f cl [] sF1 resp rd Herr Hbody Hrd Nl) as (s1 & Es1 & Eh1 & Emr).
+        match goal with |- context [merge_result f cl ?it None sF1] => replace (merge_result f cl it None sF1) with (merge_target f s1 [] rd) by (symmetry; exact Emr) end.
+        destruct (Hcont resp rd Herr Hbody Hrd [] eq_refl) as (w & Hw & Hrw).
+        destruct (merge_target_facts f s1 [] rd D w Hmp) as (A1 & A2 & A3 & A4); try assumption.
+        { rewrite Es1, Hd1. exact HsD. } { rewrite Es1, Hd1. exact Wd. } { apply Hroot. }
+        rewrite Es1, Hd1 in A2. split; [exact A2|]. split; [exact A3|].
+        intros _ _ Hh. split; [intros E; congruence|].
+        intros l src Hin. unfold targets in Hin. rewrite K, HP, Hit in Hin. destruct Hin as [E|[]]. inversion E; subst l src.
+        destruct (A4 Hh) as [_ Hc]. apply Hc. exists m0. rewrite Es1, Hd1. cbn [get_loc]. rewrite Hm0. reflexivity.
+    - (* entity *)
+      destruct Hshape as (l & b & m & Hit & Hb & Hq & Hgl). rewrite Hb in Hcont |- *. rewrite Hit in Hcont |- *. subst rqF.
+      destruct (clean_entities_rdata answer root_answer (mk_request f [b])) as (resp & Hbody & Herr & Hrd0). fold cl in Hbody, Herr.
+      cbn [rq_fetch rq_reps mk_request map] in Hrd0.
+      set (rd := fst (answer (f_id f) b)) in *.
+      assert (Hrd : get_loc (f_datapath f) resp = Some rd).
+      { rewrite Hd. change (datapath_of FEntity) with (datapath_of FBatch ++ [PIdx 0]). rewrite get_loc_app, Hrd0. reflexivity. }
+      assert (Htg : targets answer root_answer f (ls_data sF) = [(l, rd)]).
+      { unfold targets. rewrite K, HP, Hit. reflexivity. }
+      destruct (is_nullish (Some rd)) eqn:Nl.
+      + destruct (merge_result_nullish f cl [l] None sF1 resp Herr Hbody) as [E1 E2]; [rewrite Hrd; exact Nl|].
+        rewrite E1. destruct (Hsame sF1 Hd1) as [A B]. rewrite Hd1. split; [exact A|]. split; [exact B|].
+        intros _ _ _. split; [intros _; exact (Hone eq_refl)|]. rewrite Htg. intros l' src [E|[]]. inversion E; subst l' src.
+        exists (JObj m). split; [exact Hgl|]. destruct rd; try discriminate. reflexivity.
+      + destruct (merge_result_one f cl l sF1 resp rd Herr Hbody Hrd Nl) as (s1 & Es1 & Eh1 & Emr).
+        match goal with |- context [merge_result f cl ?it None sF1] => replace (merge_result f cl it None sF1) with (merge_target f s1 l rd) by (symmetry; exact Emr) end.
+        destruct (Hcont resp rd Herr Hbody Hrd l eq_refl) as (w & Hw & Hrw).
+        destruct (merge_target_facts f s1 l rd D w Hmp) as (A1 & A2 & A3 & A4); try assumption.
+        { rewrite Es1, Hd1. exact HsD. } { rewrite Es1, Hd1. exact Wd. } { apply Hans. }
+        rewrite Es1, Hd1 in A2. split; [exact A2|]. split; [exact A3|].
+        intros _ _ Hh. split; [intros _; exact (Hone eq_refl)|]. rewrite Htg. intros l' src [E|[]]. inversion E; subst l' src.
+        destruct (A4 Hh) as [_ Hc]. apply Hc. exists m. rewrite Es1, Hd1. exact Hgl.
+    - (* batch *)
+      destruct Hshape as (bsF & Hbs & HneB & Hq & Hb & Hobj). subst rqF batchF.
+      destruct (clean_entities_rdata answer root_answer (mk_request f (map fst bsF))) as (resp & Hbody & Herr & Hrd0). fold cl in Hbody, Herr.
+      cbn [rq_fetch rq_reps mk_request] in Hrd0. rewrite <- Hd in Hrd0.
+      set (ents := map (fun rep => fst (answer (f_id f) rep)) (map fst bsF)) in *.
+      destruct ents as [|e es] eqn:Eents.
+      { destruct bsF; [congruence|discriminate]. }
+      assert (Hlen : length (map snd bsF) = length (e :: es)).
+      { rewrite <- Eents. unfold ents. rewrite !map_length. reflexivity. }
+      destruct (merge_result_many f cl (select_items (ls_data sF) (f_path f)) (map snd bsF) sF1 resp e es Herr Hbody Hrd0 HneF Hlen) as (s1 & Es1 & Eh1 & Emr).
+      rewrite Emr.
+      assert (Wents : forallb json_wf (e :: es) = true).
+      { rewrite <- Eents. unfold ents. rewrite forallb_forall. intros x Hx. apply in_map_iff in Hx as (rep & <- & _). apply Hans. }
+      destruct (buckets_facts f (map snd bsF) (e :: es) s1 D Hmp) as (A1 & A2 & A3 & A4); try assumption.
+      { rewrite Es1, Hd1. exact HsD. } { rewrite Es1, Hd1. exact Wd. }
+      { intros locs src Hin l Hl. eapply (Hcont resp (JArr (e :: es)) Herr Hbody Hrd0 (e :: es) eq_refl); eassumption. }
+      rewrite Es1, Hd1 in A2. split; [exact A2|]. split; [exact A3|].
+      intros _ _ Hh. split; [intros E; congruence|].
+      intros l src Hin. unfold targets in Hin. rewrite K, Hbs in Hin.
+      apply in_flat_map in Hin as ((b, locs) & Hinb & Hl). cbn [fst snd] in Hl. apply in_map_iff in Hl as (l' & E & Hl'). inversion E; subst l' src.
+      destruct (A4 Hh) as [_ Hc]. eapply Hc.
+      + rewrite <- Eents. unfold ents. apply (combine_in_map (fun rep => fst (answer (f_id f) rep)) bsF b locs Hinb).
+      + exact Hl'.
+      + rewrite Es1, Hd1. apply (Hobj b l). exists locs. split; assumption.
+  Qed.
+End Unaff.
+
+(* ---- hard failures are sticky ---- *)
+Lemma merge_target_hard : forall f s l src, ls_hard s = true -> ls_hard (merge_target f s l src) = true.
+Proof. intros f s l src H. unfold merge_target. rewrite H. exact H. Qed.
+Lemma fold_merge_target_hard : forall f src targets s, ls_hard s = true ->
+  ls_hard (fold_left (fun s l => merge_target f s l src) targets s) = true.
+Proof. induction targets as [|l r IH]; intros s H; simpl; [exact H|]. apply IH. apply merge_target_hard. exact H. Qed.
+Lemma merge_pairwise_hard : forall f ls batch s, ls_hard s = true -> ls_hard (merge_pairwise f s ls batch) = true.
+Proof.
+  induction ls as [|l ls IH]; intros batch s H; simpl; [exact H|].
+  destruct batch; [exact H|]. apply IH. apply merge_target_hard. exact H.
+Qed.
+Lemma merge_buckets_hard : forall f bs batch s, ls_hard s = true -> ls_hard (merge_buckets f s bs batch) = true.
+Proof.
+  induction bs as [|b bs IH]; intros batch s H; simpl; [exact H|].
+  destruct batch; [exact H|]. apply IH. apply fold_merge_target_hard. exact H.
+Qed.
+Ltac hard_solve H := first [ exact H | apply merge_target_hard; exact H | apply merge_pairwise_hard; exact H | apply merge_buckets_hard; exact H ].
+Lemma merge_result_hard : forall f res items batch s, ls_hard s = true -> ls_hard (merge_result f res items batch s) = true.
+Proof.
+  intros f res items batch s H. unfold merge_result.
+  destruct (rs_err res); [hard_solve H|].
+  destruct (rs_body res) as [| |resp]; [hard_solve H|destruct (non2xx (rs_status res)); hard_solve H|].
+  set (he := match get_loc [PName k_errors] resp with Some (JArr (_ :: _)) => true | _ => false end).
+  set (s1 := if he then add_error s LE_FETCH f else s).
+  assert (H1 : ls_hard s1 = true) by (subst s1; destruct he; exact H).
+  clearbody s1.
+  destruct (is_nullish (get_loc (f_datapath f) resp)).
+  - destruct (is_entity_kind (f_kind f) && _); [hard_solve H1|].
+    destruct (negb he && non2xx (rs_status res)); [hard_solve H1|]. destruct (negb he); hard_solve H1.
+  - destruct (get_loc (f_datapath f) resp) as [rd|]; [|hard_solve H1].
+    destruct items as [|l [|l2 r]].
+    + destruct rd; hard_solve H1.
+    + destruct batch as [bs|].
+      * destruct rd as [| | | |[|b0 b]|]; try hard_solve H1. destruct (Nat.eqb _ _); hard_solve H1.
+      * hard_solve H1.
+    + destruct rd as [| | | |[|b0 b]|]; try hard_solve H1.
+      destruct batch as [bs|]; destruct (Nat.eqb _ _); hard_solve H1.
+Qed.
+
+Section Sticky.
+  Variable St : Type.
+  Variable e : St -> request -> response * St.
+  Lemma run_fetch_hard : forall f s x, ls_hard s = true -> ls_hard (fst (run_fetch St e f (s, x))) = true.
+  Proof.
+    intros f s x H. unfold run_fetch. destruct (should_skip f s); [exact H|].
+    destruct (prepare f (ls_data s) (select_items (ls_data s) (f_path f))) as [d|d rq batch]; [exact H|].
+    destruct (e x rq) as [res x']. cbn [fst]. apply merge_result_hard. destruct (rs_err res); exact H.
+  Qed.
+  Lemma run_tree_hard : forall t s x, ls_hard s = true -> ls_hard (fst (run_tree St e t (s, x))) = true.
+  Proof.
+    fix IH 1. intros t; destruct t as [f|l|l]; intros s x H.
+    - apply run_fetch_hard. exact H.
+    - simpl. revert s x H. induction l as [|t r IHl]; intros s x H; [exact H|].
+      specialize (IH t s x H). destruct (run_tree St e t (s, x)) as [s1 y1]. cbn [fst] in *. rewrite IH. exact IH.
+    - simpl. revert s x H. induction l as [|t r IHl]; intros s x H; [exact H|].
+      specialize (IH t s x H). destruct (run_tree St e t (s, x)) as [s1 y1]. cbn [fst] in *. apply IHl. exact IH.
+  Qed.
+End Sticky.
+
+Lemma run_fetch_errored_cases : forall St (e : St -> request -> response * St) f s x id,
+  In id (ls_errored (fst (run_fetch St e f (s, x)))) ->
+  In id (ls_errored s) \/
+  (id = f_id f /\ (should_skip f s = true \/
+     exists d rq b, prepare f (ls_data s) (select_items (ls_data s) (f_path f)) = PLoad d rq b /\ rs_err (fst (e x rq)) = true)).
+Proof.
+  intros St e f s x id H. unfold run_fetch in H.
+  destruct (should_skip f s) eqn:SK.
+  { cbn [fst ls_errored add_errored] in H. destruct H as [<-|H]; [right; split; [reflexivity|left; reflexivity]|left; exact H]. }
+  destruct (prepare f (ls_data s) (select_items (ls_data s) (f_path f))) as [d|d rq b] eqn:HP; [left; exact H|].
+  destruct (e x rq) as [res x'] eqn:E. cbn [fst] in H. rewrite merge_result_errored in H.
+  destruct (rs_err res) eqn:Er.
+  - cbn [ls_errored add_errored add_request set_data] in H. destruct H as [<-|H]; [|left; exact H].
+    right. split; [reflexivity|]. right. exists d, rq, b. split; [reflexivity|]. rewrite E. exact Er.
+  - left. exact H.
+Qed.
+
+Section Three.
+  Variable answer : N -> bytes -> json * list json.
+  Variable root_answer : N -> json * list json.
+  Variable kind_of : N -> fkind.
+  Variable F : N -> option fault.
+  Hypothesis Hloud : forall id k, F id = Some k -> loud (kind_of id) k = true.
+  Hypothesis Hans : forall id rep, json_wf (fst (answer id rep)) = true.
+  Hypothesis Hroot : forall id, json_wf (fst (root_answer id)) = true.
+  Variable A : N -> bool.
+  Hypothesis HFA : forall id k, F id = Some k -> A id = true.
+
+  Definition knock : N -> option fault := fun id => if A id then Some FtTransport else None.
+
+  Let e0 := clean_exchange answer root_answer kind_of.
+  Let eF := faulty_exchange answer root_answer kind_of F.
+  Let eG := faulty_exchange answer root_answer kind_of knock.
+
+  Definition dep_closed (f : fetch) : Prop := forall d, In d (f_deps f) -> A d = true -> A (f_id f) = true.
+  Definition FI (s : lstate) : Prop :=
+    json_wf (ls_data s) = true /\ (exists m, ls_data s = JObj m) /\ (forall id, In id (ls_errored s) -> A id = true).
+
+  Lemma not_skipped : forall f s, dep_closed f -> (forall id, In id (ls_errored s) -> A id = true) -> A (f_id f) = false ->
+    should_skip f s = false.
+  Proof.
+    intros f s Hc He Ha. unfold should_skip. destruct (existsb _ (f_deps f)) eqn:E; [|reflexivity].
+    apply existsb_exists in E as (d & Hd & Hx). apply existsb_exists in Hx as (d' & Hd' & Heq). apply N.eqb_eq in Heq. subst d'.
+    rewrite (Hc d Hd (He d Hd')) in Ha. discriminate.
+  Qed.
+
+  Lemma F_fetch_progress : forall f s0 sF, Rst s0 sF -> FI sF -> fetch_ok kind_of f = true ->
+    step_ok_b answer root_answer kind_of f s0 = true -> dep_closed f ->
+    let sF' := fst (run_fetch unit eF f (sF, tt)) in
+    ls_hard sF' = false ->
+    FI sF' /\ sub_b (ls_data sF) (ls_data sF') = true /\ (A (f_id f) = false -> big_facts answer root_answer f (ls_data sF) (ls_data sF')).
+  Proof.
+    intros f s0 sF HR (Wd & (m & Hm) & He) Hok Hstep Hc. cbv zeta. intros Hh.
+    destruct (F_step_facts answer root_answer kind_of F Hloud Hans Hroot f s0 sF HR Hok Hstep Wd (ex_intro _ m Hm)) as (Hinf & Wd' & Hbig).
+    split; [|split; [exact Hinf|]].
+    - split; [exact Wd'|]. split; [rewrite Hm in Hinf; apply (sub_obj_root _ _ Hinf)|].
+      intros id Hid. apply run_fetch_errored_cases in Hid as [Hid|(-> & [Hsk|(d & rq & b & HP & Herr)])]; [apply He; exact Hid| |].
+      + destruct (A (f_id f)) eqn:Ea; [reflexivity|]. rewrite (not_skipped f sF Hc He Ea) in Hsk. discriminate.
+      + destruct (prepare_request _ _ _ _ _ _ HP) as [Hrq _]. unfold eF, faulty_exchange in Herr. cbn [fst] in Herr. rewrite Hrq in Herr.
+        destruct (F (f_id f)) as [k|] eqn:EF; [eapply HFA; exact EF|]. cbn in Herr. discriminate.
+    - intros Ea. apply Hbig; [|apply not_skipped; assumption|exact Hh].
+      destruct (F (f_id f)) as [k|] eqn:EF; [|reflexivity]. rewrite (HFA _ _ EF) in Ea. discriminate.
+  Qed.
+
+  Lemma G_fetch_same : forall f sG, fetch_ok kind_of f = true -> A (f_id f) = true ->
+    ls_data (fst (run_fetch unit eG f (sG, tt))) = ls_data sG.
+  Proof.
+    intros f sG Hok Ha. unfold run_fetch. destruct (should_skip f sG); [reflexivity|].
+    pose proof (prepare_data kind_of f (ls_data sG) (select_items (ls_data sG) (f_path f)) Hok) as Hpd.
+    destruct (prepare f (ls_data sG) (select_items (ls_data sG) (f_path f))) as [d|d rq b] eqn:HP; [cbn; exact Hpd|].
+    destruct (prepare_request _ _ _ _ _ _ HP) as [Hrq _]. unfold eG, faulty_exchange, knock. rewrite Hrq, Ha. cbn [fst apply_fault rs_err].
+    unfold merge_result. cbn [rs_err]. cbn. exact Hpd.
+  Qed.
+
+  Lemma fetch_sim3 : forall f s0 sF sG, Rst s0 sF -> FI sF -> sub_b (ls_data sG) (ls_data sF) = true ->
+    fetch_ok kind_of f = true -> step_ok_b answer root_answer kind_of f s0 = true -> dep_closed f ->
+    ls_hard (fst (run_fetch unit eF f (sF, tt))) = false ->
+    sub_b (ls_data (fst (run_fetch unit eG f (sG, tt)))) (ls_data (fst (run_fetch unit eF f (sF, tt)))) = true.
+  Proof.
+    intros f s0 sF sG HR HFI Hs Hok Hstep Hc Hh.
+    destruct (F_fetch_progress f s0 sF HR HFI Hok Hstep Hc Hh) as (_ & Hinf & Hbig).
+    set (DF := ls_data (fst (run_fetch unit eF f (sF, tt)))) in *.
+    assert (HsD : sub_b (ls_data sG) DF = true) by (eapply sub_trans; eassumption).
+    destruct (A (f_id f)) eqn:Ea.
+    { rewrite (G_fetch_same f sG Hok Ea). exact HsD. }
+    specialize (Hbig eq_refl).
+    destruct (fetch_ok_inv kind_of f Hok) as (Hk & Hd & Hnt & Hmp & Hkind).
+    unfold run_fetch at 1. destruct (should_skip f sG); [exact HsD|].
+    pose proof (prepare_data kind_of f (ls_data sG) (select_items (ls_data sG) (f_path f)) Hok) as Hpd.
+    destruct (prepare f (ls_data sG) (select_items (ls_data sG) (f_path f))) as [d|dG rqG batchG] eqn:HP; [cbn [fst ls_data set_data]; subst d; exact HsD|].
+    subst dG. destruct (prepare_request _ _ _ _ _ _ HP) as [Hrq _].
+    assert (Hload : load_ok answer root_answer f (ls_data sF) DF (select_items (ls_data sG) (f_path f)) rqG batchG).
+    { destruct (f_kind f) eqn:K; [eapply load_sim_single|eapply load_sim_entity|eapply load_sim_batch]; eassumption. }
+    destruct Hload as (_ & HneG & Hone & Hcont).
+    unfold eG, faulty_exchange, knock. rewrite Hrq, Ea, Hk. cbn [fst].
+    apply merge_result_sub; try assumption.
+  Qed.
+
+  Definition closed_in (t : ftree) : Prop := forall f, In f (fetches_of t) -> dep_closed f.
+
+  Lemma closed_app : forall (l1 l2 : list fetch), (forall f, In f (l1 ++ l2) -> dep_closed f) ->
+    (forall f, In f l1 -> dep_closed f) /\ (forall f, In f l2 -> dep_closed f).
+  Proof. intros l1 l2 H. split; intros f Hf; apply H; apply in_or_app; [left|right]; exact Hf. Qed.
+
+  (* the faulty run alone (with the fault-free run as its bound): grows, stays well formed *)
+  Lemma F_tree_progress : forall t s0 sF, Rst s0 sF -> FI sF -> forallb (fetch_ok kind_of) (fetches_of t) = true ->
+    consistent_from answer root_answer kind_of t s0 = true -> closed_in t ->
+    ls_hard (fst (run_tree unit eF t (sF, tt))) = false ->
+    FI (fst (run_tree unit eF t (sF, tt))) /\ sub_b (ls_data sF) (ls_data (fst (run_tree unit eF t (sF, tt)))) = true.
+  Proof.
+    fix IH 1. intros t; destruct t as [f|l|l]; intros s0 sF HR HFI Hwf Hc Hcl Hh.
+    - simpl in Hwf. rewrite andb_true_r in Hwf. simpl in Hc.
+      destruct (F_fetch_progress f s0 sF HR HFI Hwf Hc (Hcl f (or_introl eq_refl)) Hh) as (H1 & H2 & _). split; assumption.
+    - simpl in *. revert s0 sF HR HFI Hwf Hc Hcl Hh. induction l as [|t r IHl]; intros s0 sF HR HFI Hwf Hc Hcl Hh.
+      { split; [exact HFI|]. destruct HFI as (W & _ & _). apply sub_refl. exact W. }
+      rewrite forallb_app in Hwf. apply andb_prop in Hwf as [Hw1 Hw2]. apply andb_prop in Hc as [Hc1 Hc2].
+      destruct (closed_app _ _ Hcl) as [Hcl1 Hcl2].
+      pose proof (tree_sim answer root_answer kind_of F Hloud t s0 sF HR Hw1 Hc1) as HR1.
+      specialize (IH t s0 sF HR HFI Hw1 Hc1 Hcl1).
+      destruct (run_tree unit (clean_exchange answer root_answer kind_of) t (s0, tt)) as [s1 []] eqn:R1.
+      unfold eF in *. destruct (run_tree unit (faulty_exchange answer root_answer kind_of F) t (sF, tt)) as [sF1 []] eqn:RF1. cbn [fst] in *.
+      destruct (ls_hard sF1) eqn:H1.
+      + cbn [fst] in Hh. rewrite H1 in Hh. discriminate.
+      + destruct (IH eq_refl) as [I1 I2]. destruct (IHl s1 sF1 HR1 I1 Hw2 Hc2 Hcl2 Hh) as [J1 J2].
+        split; [exact J1|eapply sub_trans; eassumption].
+    - simpl in *. revert s0 sF HR HFI Hwf Hc Hcl Hh. induction l as [|t r IHl]; intros s0 sF HR HFI Hwf Hc Hcl Hh.
+      { split; [exact HFI|]. destruct HFI as (W & _ & _). apply sub_refl. exact W. }
+      rewrite forallb_app in Hwf. apply andb_prop in Hwf as [Hw1 Hw2]. apply andb_prop in Hc as [Hc1 Hc2].
+      destruct (closed_app _ _ Hcl) as [Hcl1 Hcl2].
+      pose proof (tree_sim answer root_answer kind_of F Hloud t s0 sF HR Hw1 Hc1) as HR1.
+      specialize (IH t s0 sF HR HFI Hw1 Hc1 Hcl1).
+      destruct (run_tree unit (clean_exchange answer root_answer kind_of) t (s0, tt)) as [s1 []] eqn:R1.
+      unfold eF in *. destruct (run_tree unit (faulty_exchange answer root_answer kind_of F) t (sF, tt)) as [sF1 []] eqn:RF1. cbn [fst] in *.
+      destruct (ls_hard sF1) eqn:H1.
+      + pose proof (run_tree_hard unit (faulty_exchange answer root_answer kind_of F) (FTPar r) sF1 tt H1) as Hx. simpl in Hx. rewrite Hx in Hh. discriminate.
+      + destruct (IH eq_refl) as [I1 I2]. destruct (IHl s1 sF1 HR1 I1 Hw2 Hc2 Hcl2 Hh) as [J1 J2].
+        split; [exact J1|eapply sub_trans; eassumption].
+  Qed.
+
+  Lemma tree_sim3 : forall t s0 sF sG, Rst s0 sF -> FI sF -> sub_b (ls_data sG) (ls_data sF) = true ->
+    forallb (fetch_ok kind_of) (fetches_of t) = true ->
+    consistent_from answer root_answer kind_of t s0 = true -> closed_in t ->
+    ls_hard (fst (run_tree unit eF t (sF, tt))) = false ->
+    sub_b (ls_data (fst (run_tree unit eG t (sG, tt)))) (ls_data (fst (run_tree unit eF t (sF, tt)))) = true.
+  Proof.
+    fix IH 1. intros t; destruct t as [f|l|l]; intros s0 sF sG HR HFI Hs Hwf Hc Hcl Hh.
+    - simpl in Hwf. rewrite andb_true_r in Hwf. simpl in Hc.
+      apply (fetch_sim3 f s0 sF sG HR HFI Hs Hwf Hc (Hcl f (or_introl eq_refl)) Hh).
+    - simpl in *. revert s0 sF sG HR HFI Hs Hwf Hc Hcl Hh. induction l as [|t r IHl]; intros s0 sF sG HR HFI Hs Hwf Hc Hcl Hh; [exact Hs|].
+      rewrite forallb_app in Hwf. apply andb_prop in Hwf as [Hw1 Hw2]. apply andb_prop in Hc as [Hc1 Hc2].
+      destruct (closed_app _ _ Hcl) as [Hcl1 Hcl2].
+      pose proof (tree_sim answer root_answer kind_of F Hloud t s0 sF HR Hw1 Hc1) as HR1.
+      pose proof (F_tree_progress t s0 sF HR HFI Hw1 Hc1 Hcl1) as HP1.
+      specialize (IH t s0 sF sG HR HFI Hs Hw1 Hc1 Hcl1).
+      destruct (run_tree unit (clean_exchange answer root_answer kind_of) t (s0, tt)) as [s1 []] eqn:R1.
+      unfold eF, eG in *. destruct (run_tree unit (faulty_exchange answer root_answer kind_of F) t (sF, tt)) as [sF1 []] eqn:RF1.
+      destruct (run_tree unit (faulty_exchange answer root_answer kind_of knock) t (sG, tt)) as [sG1 []] eqn:RG1. cbn [fst] in *.
+      destruct (ls_hard sF1) eqn:H1; [cbn [fst] in Hh; rewrite H1 in Hh; discriminate|].
+      destruct (HP1 eq_refl) as [I1 _]. specialize (IH eq_refl).
+      destruct (ls_hard sG1) eqn:HG1.
+      + (* the knocked-out run stops; the faulty run goes on growing *)
+        pose proof (F_tree_progress (FTSeq r) s1 sF1 HR1 I1) as HP2. simpl in HP2.
+        destruct (HP2 Hw2 Hc2 Hcl2 Hh) as [_ J2]. eapply sub_trans; eassumption.
+      + apply (IHl s1 sF1 sG1 HR1 I1 IH Hw2 Hc2 Hcl2 Hh).
+    - simpl in *. revert s0 sF sG HR HFI Hs Hwf Hc Hcl Hh. induction l as [|t r IHl]; intros s0 sF sG HR HFI Hs Hwf Hc Hcl Hh; [exact Hs|].
+      rewrite forallb_app in Hwf. apply andb_prop in Hwf as [Hw1 Hw2]. apply andb_prop in Hc as [Hc1 Hc2].
+      destruct (closed_app _ _ Hcl) as [Hcl1 Hcl2].
+      pose proof (tree_sim answer root_answer kind_of F Hloud t s0 sF HR Hw1 Hc1) as HR1.
+      pose proof (F_tree_progress t s0 sF HR HFI Hw1 Hc1 Hcl1) as HP1.
+      specialize (IH t s0 sF sG HR HFI Hs Hw1 Hc1 Hcl1).
+      destruct (run_tree unit (clean_exchange answer root_answer kind_of) t (s0, tt)) as [s1 []] eqn:R1.
+      unfold eF, eG in *. destruct (run_tree unit (faulty_exchange answer root_answer kind_of F) t (sF, tt)) as [sF1 []] eqn:RF1.
+      destruct (run_tree unit (faulty_exchange answer root_answer kind_of knock) t (sG, tt)) as [sG1 []] eqn:RG1. cbn [fst] in *.
+      destruct (ls_hard sF1) eqn:H1.
+      { pose proof (run_tree_hard unit (faulty_exchange answer root_answer kind_of F) (FTPar r) sF1 tt H1) as Hx. simpl in Hx. rewrite Hx in Hh. discriminate. }
+      destruct (HP1 eq_refl) as [I1 _]. specialize (IH eq_refl).
+      apply (IHl s1 sF1 sG1 HR1 I1 IH Hw2 Hc2 Hcl2 Hh).
+  Qed.
+
+  Theorem unaffected_lower_proof : forall t,
+    fplan_wf kind_of t = true -> consistent answer root_answer kind_of t = true -> closed_in t ->
+    ls_hard (run answer root_answer kind_of F t) = false ->
+    sub_b (ls_data (run answer root_answer kind_of knock t)) (ls_data (run answer root_answer kind_of F t)) = true.
+  Proof.
+    intros t Hwf Hc Hcl Hh. unfold fplan_wf in Hwf. apply andb_prop in Hwf as [Hwf _].
+    assert (H0 : Rst init_state init_state) by (constructor; reflexivity).
+    assert (HFI : FI init_state) by (split; [reflexivity|split; [exists []; reflexivity|intros id []]]).
+    unfold run, load in *. apply (tree_sim3 t init_state init_state init_state H0 HFI eq_refl Hwf Hc Hcl Hh).
+  Qed.
+End Three.
+
+Lemma unaffected_lower_proof' : forall answer root_answer kind_of F (A : N -> bool) t,
+  (forall id k, F id = Some k -> loud (kind_of id) k = true) ->
+  (forall id rep, json_wf (fst (answer id rep)) = true) -> (forall id, json_wf (fst (root_answer id)) = true) ->
+  (forall id k, F id = Some k -> A id = true) -> closed_in A t ->
+  fplan_wf kind_of t = true -> consistent answer root_answer kind_of t = true ->
+  ls_hard (run answer root_answer kind_of F t) = false ->
+  sub_b (ls_data (run answer root_answer kind_of (knock A) t)) (ls_data (run answer root_answer kind_of F t)) = true.
+Proof.
+  intros answer root_answer kind_of F A t Hl Ha Hr HFA Hcl Hwf Hc Hh.
+  exact (unaffected_lower_proof answer root_answer kind_of F Hl Ha Hr A HFA t Hwf Hc Hcl Hh).
+Qed.
